@@ -23,6 +23,10 @@ import (
 	"time"
 
 	"github.com/hyperledger/aries-framework-go/component/kmscrypto/doc/jose/jwk/jwksupport"
+	"github.com/hyperledger/aries-framework-go/component/kmscrypto/doc/util/jwkkid"
+	"github.com/hyperledger/aries-framework-go/component/models/dataintegrity"
+	"github.com/hyperledger/aries-framework-go/component/models/dataintegrity/suite/ecdsa2019"
+	"github.com/hyperledger/aries-framework-go/component/models/did"
 	ldcontext "github.com/hyperledger/aries-framework-go/component/models/ld/context"
 	"github.com/hyperledger/aries-framework-go/component/models/ld/processor"
 	ldtestutil "github.com/hyperledger/aries-framework-go/component/models/ld/testutil"
@@ -35,6 +39,7 @@ import (
 	sigverifier "github.com/hyperledger/aries-framework-go/component/models/signature/verifier"
 	"github.com/hyperledger/aries-framework-go/component/models/verifiable"
 	kmsapi "github.com/hyperledger/aries-framework-go/spi/kms"
+	vdrspi "github.com/hyperledger/aries-framework-go/spi/vdr"
 	ld "github.com/piprate/json-gold/ld"
 )
 
@@ -85,7 +90,7 @@ func c07Setup() {
 
 func c07Doc(seed int) map[string]interface{} {
 	r := NewRng(uint64(seed) + 7777)
-	if seed >= 100 {
+	if seed >= 100 && seed < 200 {
 		// only the base context: the credential can say nothing beyond the ids (every other member is undefined)
 		vc := jm{
 			"@context":     []interface{}{"https://www.w3.org/2018/credentials/v1"},
@@ -101,6 +106,26 @@ func c07Doc(seed int) map[string]interface{} {
 			vc["credentialSubject"] = []interface{}{jm{"id": "did:example:s1"}, jm{"id": "did:example:s2"}}
 		} else {
 			vc["credentialSubject"] = jm{"id": "did:example:s1"}
+		}
+		return vc
+	}
+	if seed >= 200 {
+		// two-element arrays whose FIRST element has exactly one member more than the second
+		big := jm{"name": "Alice", "nick": "al", "score": r.N(100)}
+		small := jm{"name": "Bob", "nick": "bo"}
+		s1 := jm{"id": "did:example:s1", "name": "Carol", "knows": []interface{}{big, small}, "homepage": "https://example.org/home"}
+		vc := jm{
+			"@context":     []interface{}{"https://www.w3.org/2018/credentials/v1", c07Ctx},
+			"id":           fmt.Sprintf("http://example.edu/credentials/%d", seed),
+			"type":         []interface{}{"VerifiableCredential", "DegreeCredential"},
+			"issuer":       "did:example:issuer",
+			"issuanceDate": "2020-01-01T19:23:24Z",
+		}
+		if r.Bool() {
+			s2 := jm{"id": "did:example:s2", "name": "Dave", "knows": []interface{}{jm{"name": "Erin", "nick": "er", "score": 3}, jm{"name": "Fay", "nick": "fa"}}}
+			vc["credentialSubject"] = []interface{}{s1, s2}
+		} else {
+			vc["credentialSubject"] = s1
 		}
 		return vc
 	}
@@ -346,6 +371,54 @@ func c07Mutate(doc map[string]interface{}, mut string) bool {
 	case "delproof":
 		delete(doc, "proof")
 		return true
+	case "proof2":
+		// a second proof next to the genuine one: of a type the verifier has no suite for, or a copy of the genuine one
+		// with another creation time
+		p, ok := doc["proof"].(map[string]interface{})
+		if !ok {
+			return false
+		}
+		second := map[string]interface{}{}
+		for k, v := range p {
+			second[k] = v
+		}
+		switch f[1] {
+		case "foreign":
+			// a type the framework knows, for which THIS verifier has no suite configured
+			second["type"] = "JsonWebSignature2020"
+			if p["type"] == "JsonWebSignature2020" {
+				second["type"] = "Ed25519Signature2018"
+			}
+		case "altered":
+			second["created"] = "2021-03-03T03:03:03Z"
+		default:
+			return false
+		}
+		doc["proof"] = []interface{}{p, second}
+		return true
+	case "addtype":
+		// a type value no context defines, on the credential, the subject or a nested node
+		var holder map[string]interface{}
+		switch f[1] {
+		case "top":
+			holder = doc
+		case "subject":
+			holder = c07Subject(doc)
+		case "nested":
+			holder, _ = c07Subject(doc)["degree"].(map[string]interface{})
+		}
+		if holder == nil {
+			return false
+		}
+		switch t := holder["type"].(type) {
+		case []interface{}:
+			holder["type"] = append(t, "UndefinedTypeXYZ")
+		case string:
+			holder["type"] = []interface{}{t, "UndefinedTypeXYZ"}
+		default:
+			holder["type"] = "UndefinedTypeXYZ"
+		}
+		return true
 	case "sig":
 		p, ok := doc["proof"].(map[string]interface{})
 		if !ok {
@@ -383,6 +456,9 @@ func c07Run(input string) string {
 		keyName     string
 		keyType     string
 	)
+	if suiteName == "di2019" {
+		return c07RunDI(seed, mut)
+	}
 	switch suiteName {
 	case "ed2018":
 		sigType, keyName, keyType = "Ed25519Signature2018", "ed", "Ed25519VerificationKey2018"
@@ -498,6 +574,91 @@ func c07Run(input string) string {
 		strings.ReplaceAll(string(signed), "|", "/"), strings.ReplaceAll(string(mutated), "|", "/"))
 }
 
+// ---- Data Integrity (ecdsa-2019) --------------------------------------------------------------------------------------
+
+type c07Resolver struct{ doc *did.Doc }
+
+func (r c07Resolver) Resolve(string, ...vdrspi.DIDMethodOption) (*did.DocResolution, error) {
+	return &did.DocResolution{DIDDocument: r.doc}, nil
+}
+
+func c07RunDI(seed int, mut string) string {
+	e := c07E
+	const signingDID, vmID = "did:example:issuer", "#key-1"
+	j, err := jwkkid.BuildJWK(e.pubs["p256"], kmsapi.ECDSAP256TypeIEEEP1363)
+	if err != nil {
+		return "sign=err jwk"
+	}
+	vm, err := did.NewVerificationMethodFromJWK(signingDID+vmID, "JsonWebKey2020", signingDID, j)
+	if err != nil {
+		return "sign=err vm"
+	}
+	resolver := c07Resolver{&did.Doc{ID: signingDID, VerificationMethod: []did.VerificationMethod{*vm},
+		AssertionMethod: []did.Verification{{VerificationMethod: *vm, Relationship: did.AssertionMethod}}}}
+	signer, err := dataintegrity.NewSigner(&dataintegrity.Options{DIDResolver: resolver},
+		ecdsa2019.NewSignerInitializer(&ecdsa2019.SignerInitializerOptions{SignerGetter: ecdsa2019.WithLocalKMSSigner(e.kms, envCrypto),
+			LDDocumentLoader: e.loader}))
+	if err != nil {
+		return "sign=err signer"
+	}
+	verifier, err := dataintegrity.NewVerifier(&dataintegrity.Options{DIDResolver: resolver},
+		ecdsa2019.NewVerifierInitializer(&ecdsa2019.VerifierInitializerOptions{LDDocumentLoader: e.loader}))
+	if err != nil {
+		return "sign=err verifier"
+	}
+	doc := c07Doc(seed)
+	doc["@context"] = append(doc["@context"].([]interface{}), "https://w3id.org/security/data-integrity/v1")
+	docJSON, _ := json.Marshal(doc)
+	vc, err := verifiable.ParseCredential(docJSON, verifiable.WithJSONLDDocumentLoader(e.loader), verifiable.WithDisabledProofCheck())
+	if err != nil {
+		return "sign=err parse " + c16Class(err)
+	}
+	created := time.Date(2020, 5, 5, 5, 5, 5, 0, time.UTC)
+	if err := vc.AddDataIntegrityProof(&verifiable.DataIntegrityProofContext{SigningKeyID: signingDID + vmID, ProofPurpose: "assertionMethod",
+		CryptoSuite: ecdsa2019.SuiteType, Created: &created, Domain: "issuer.example", Challenge: "c-123"}, signer); err != nil {
+		if os_trace() {
+			fmt.Println("#", err)
+		}
+		return "sign=err " + c16Class(err)
+	}
+	signed, err := vc.MarshalJSON()
+	if err != nil {
+		return "sign=err marshal"
+	}
+	verify := func(doc []byte, strict bool) string {
+		opts := []verifiable.CredentialOpt{verifiable.WithJSONLDDocumentLoader(e.loader), verifiable.WithDataIntegrityVerifier(verifier),
+			verifiable.WithExpectedDataIntegrityFields("assertionMethod", "issuer.example", "c-123")}
+		if strict {
+			opts = append(opts, verifiable.WithStrictValidation())
+		}
+		v, err := verifiable.ParseCredential(doc, opts...)
+		if err != nil {
+			if os_trace() {
+				fmt.Println("#", err)
+			}
+			return "rej"
+		}
+		if len(v.Proofs) == 0 && v.JWT == "" {
+			return "noproof"
+		}
+		return "acc"
+	}
+	base := verify(signed, false)
+	var m map[string]interface{}
+	if err := json.Unmarshal(signed, &m); err != nil {
+		return "sign=err decode"
+	}
+	applied := c07Mutate(m, mut)
+	mutated, _ := json.Marshal(m)
+	res, strict := verify(mutated, false), verify(mutated, true)
+	ap := "1"
+	if !applied {
+		ap = "0"
+	}
+	return fmt.Sprintf("sign=ok base=%s res=%s strict=%s applied=%s|%s|%s", base, res, strict, ap,
+		strings.ReplaceAll(string(signed), "|", "/"), strings.ReplaceAll(string(mutated), "|", "/"))
+}
+
 type c07BBSSigner struct{ kh interface{} }
 
 func (s c07BBSSigner) Sign(data []byte) ([]byte, error) {
@@ -517,7 +678,7 @@ func c07Gen(r *Rng, tier string) []string {
 		n = 12000
 	}
 	var out []string
-	suites := []string{"ed2018", "ed2018", "ed2020", "jws2020", "k256", "bbs"}
+	suites := []string{"ed2018", "ed2018", "ed2020", "jws2020", "k256", "bbs", "di2019", "di2019"}
 	for i := 0; i < n; i++ {
 		s := r.Pick(suites)
 		repr := "pv"
@@ -540,15 +701,20 @@ func c07Gen(r *Rng, tier string) []string {
 		case x < 15:
 			mut = "addundef:" + r.Pick([]string{"top", "subject", "nested", "elem", "elem", "elem1"})
 		case x < 16:
-			mut = r.Pick([]string{"reorder", "dup"})
+			mut = r.Pick([]string{"reorder", "dup", "proof2:foreign", "proof2:altered"})
 		case x < 18:
 			mut = "opt:" + r.Pick([]string{"created", "verificationMethod", "proofPurpose", "domain", "challenge"})
 		case x < 19:
-			mut = "delproof"
+			mut = r.Pick([]string{"delproof", "proof2:foreign", "proof2:foreign", "proof2:altered", "addtype:top", "addtype:subject", "addtype:nested"})
 		default:
 			mut = "sig"
 		}
 		seed := r.N(60)
+		if r.N(6) == 0 {
+			// arrays whose elements have different numbers of members, and an undefined member on the smaller one
+			seed = 200 + r.N(20)
+			mut = r.Pick([]string{"addundef:elem", "addundef:elem", "addundef:subj2", "adddef:elem", "none"})
+		}
 		if r.N(5) == 0 { // a credential with the base context only (suites whose terms the base context defines)
 			seed = 100 + r.N(20)
 			s = r.Pick([]string{"ed2018", "ed2018", "k256"})
